@@ -33,9 +33,14 @@ def is_docstring(st):
     return isinstance(st, ast.Expr) and isinstance(st.value, ast.Constant) and isinstance(st.value.value, str)
 
 
+ONLY_LINES = None   # optional set of (start, end) line ranges of the functions to mutate
+
+
 def mutants_of(tree: ast.Module):
     """yield (description, lineno, mutated tree)"""
     fns = [n for n in ast.walk(tree) if isinstance(n, (ast.FunctionDef, ast.AsyncFunctionDef))]
+    if ONLY_LINES is not None:
+        fns = [f for f in fns if (f.lineno, f.end_lineno) in ONLY_LINES]
     idx = 0
     for fn in fns:
         for node in ast.walk(fn):
@@ -112,7 +117,9 @@ def apply(tree: ast.Module, spec):
 
 
 def run_one(args):
-    pid, relfile, desc, lineno, spec_key, src_path, with_tests = args
+    global ONLY_LINES
+    pid, relfile, desc, lineno, spec_key, src_path, with_tests, only = args
+    ONLY_LINES = only
     from engine.report import run_property
     from engine.model import AnalysisError
     from rules import registry
@@ -154,10 +161,15 @@ def run_one(args):
             # tests need the rest of the repository: copy tests next to the mutated package
             shutil.copytree(os.path.join(REPO, "tests"), os.path.join(tmp, "tests"), ignore=shutil.ignore_patterns("__pycache__"))
             home = tempfile.mkdtemp(prefix="cinco-muthome-")
-            r = subprocess.run("/venv/bin/python -m pytest -q -x -p no:cacheprovider --deselect tests/test_schema.py::TestSchema::test_setattr_field 2>&1 | tail -1",
-                               shell=True, cwd=tmp, capture_output=True, text=True, env=dict(os.environ, HOME=home), timeout=300)
+            try:
+                r = subprocess.run("timeout -k 2 90 /venv/bin/python -m pytest -q -x -p no:cacheprovider --timeout=15 "
+                                   "--deselect tests/test_schema.py::TestSchema::test_setattr_field 2>&1 | tail -1",
+                                   shell=True, cwd=tmp, capture_output=True, text=True, env=dict(os.environ, HOME=home), timeout=120)
+                out = r.stdout
+            except subprocess.TimeoutExpired:
+                out = "timeout"
             shutil.rmtree(home, ignore_errors=True)
-            res["tests"] = "green" if " passed" in r.stdout and "failed" not in r.stdout and "error" not in r.stdout else "red"
+            res["tests"] = "green" if " passed" in out and "failed" not in out and "error" not in out else "red"
         return res
     finally:
         shutil.rmtree(tmp, ignore_errors=True)
@@ -178,17 +190,39 @@ def main():
     ap.add_argument("--tests", action="store_true")
     ap.add_argument("--out")
     ap.add_argument("--files", nargs="*")
+    ap.add_argument("--all-functions", action="store_true")
     a = ap.parse_args()
     props = {json.loads(l)["id"]: json.loads(l) for l in open(os.path.join(HERE, "properties.jsonl"))}
     files = a.files or [f for f in props[a.pid]["anchors"]["files"] if f.endswith(".py")]
+    global ONLY_LINES
+    # functions the property's rules actually look at: qualnames of the obligations in its evidence
+    focus = None
+    evp = os.path.join(HERE, "evidence", "%s.json" % a.pid)
+    if not a.all_functions and os.path.exists(evp):
+        ev = json.load(open(evp))
+        quals = {smp["qualname"] for smp in ev["coverage"]["samples"]}
+        from engine.model import Model
+        model = Model(REPO)
+        focus = {}
+        for f in model.functions:
+            top = f
+            while top.parent is not None:
+                top = top.parent
+            if f.qualname in quals or top.qualname in quals or (f.cls is not None and f.cls.name in quals):
+                if not isinstance(f.node, ast.Lambda):
+                    focus.setdefault(f.module.relpath, set()).add((f.node.lineno, f.node.end_lineno))
+        files = sorted(focus)
     jobs = []
     for rel in files:
         path = os.path.join(REPO, rel)
         if not os.path.exists(path):
             continue
         tree = ast.parse(open(path, encoding="utf-8").read())
+        only = frozenset(focus[rel]) if focus is not None else None
+        ONLY_LINES = only
         for desc, ln, spec in mutants_of(tree):
-            jobs.append((a.pid, rel, desc, ln, _key(spec, tree), path, a.tests))
+            jobs.append((a.pid, rel, desc, ln, _key(spec, tree), path, a.tests, only))
+    ONLY_LINES = None
     if a.max and len(jobs) > a.max:
         import random
         random.Random(int(os.environ.get("VERIF_SEED", "0") or 0)).shuffle(jobs)
